@@ -299,7 +299,20 @@ Rules(i, L) ==
             /\ \A p \in 1..Len(rl[j]) :
                  (IsCell(rl[j][p]) /\ CellOf(rl[j][p]) \in ci.set) =>
                      \E k \in ci.cols[CellOf(rl[j][p])] : sp[k] < p /\ p < sp[k + 1]
-Aligned(i, L) == Bands(i, L) /\ Rules(i, L)
+\*  (c) borderless style: the header underline is a row like the others - no line is longer than it, every character of
+\*      a column's text stands above / below a '=' of the underline, and the '=' runs of two columns are separated
+Underline(i, L) ==
+  (i.style = "borderless") =>
+    LET ci == ClassInfo(i)
+        cm == [g \in ci.set |-> IF Cardinality(ci.cols[g]) = 1 THEN CHOOSE k \in ci.cols[g] : TRUE ELSE 0]
+        pos == [k \in 1..i.n |-> ColPos(L, k, cm)]
+    IN \A j \in 1..Len(L) :
+         (\E p \in 1..Len(L[j]) : L[j][p] = EQ) =>
+            /\ \A m \in 1..Len(L) : Len(L[m]) <= Len(L[j])
+            /\ \A k \in 1..i.n : \A p \in pos[k] : p <= Len(L[j]) /\ L[j][p] = EQ
+            /\ \A k1, k2 \in 1..i.n : (k1 < k2 /\ pos[k1] # {} /\ pos[k2] # {}) =>
+                  \E q \in (Max(pos[k1]) + 1)..(Min(pos[k2]) - 1) : L[j][q] # EQ
+Aligned(i, L) == Bands(i, L) /\ Rules(i, L) /\ Underline(i, L)
 
 \* ------------------------------------------------------------------ A => P, checked by TLC
 InvSucceeds == Pre(inp) => pc # "fail"
